@@ -468,8 +468,59 @@ def template_endgame(rng):
     return fen_of(b, rng.choice("wb"), "-", "-", rng.choice([0, 0, 3, 40]), rng.randrange(1, 80))
 
 
+def template_longray(rng):
+    """a slider at the far end of a whole file, rank or long diagonal from our king (distance 6 or 7): as a check (line empty),
+    as a pin at maximal range (one man of ours between) or screened by one enemy man -- sixth seed round: ray_s lost its last step"""
+    kind = rng.choice(["file", "file", "rank", "rank", "diag", "anti"])
+    far = rng.choice([7, 7, 7, 6])
+    if kind == "file":
+        f = rng.randrange(8)
+        up = rng.random() < 0.5
+        k = (f, 0 if up else 7)
+        d = (0, 1 if up else -1)
+    elif kind == "rank":
+        r = rng.randrange(8)
+        right = rng.random() < 0.5
+        k = (0 if right else 7, r)
+        d = (1 if right else -1, 0)
+    elif kind == "diag":
+        up = rng.random() < 0.5
+        k = (0, 0) if up else (7, 7)
+        d = (1, 1) if up else (-1, -1)
+    else:
+        up = rng.random() < 0.5
+        k = (7, 0) if up else (0, 7)
+        d = (-1, 1) if up else (1, -1)
+    t = (k[0] + d[0] * far, k[1] + d[1] * far)
+    if not on(*t):
+        return None
+    diag = d[0] != 0 and d[1] != 0
+    b = {sq(*k): "K", sq(*t): rng.choice("bq") if diag else rng.choice("rq")}
+    mode = rng.choice(["check", "check", "pin", "pin", "screen"])
+    if mode != "check":
+        j = rng.randrange(1, far)
+        m = (k[0] + d[0] * j, k[1] + d[1] * j)
+        pk = rng.choice("NBRQP") if mode == "pin" else rng.choice("nbrp")
+        if pk in "Pp" and m[1] in (0, 7):
+            pk = "N" if pk == "P" else "n"
+        b[sq(*m)] = pk
+    line = {sq(k[0] + d[0] * j, k[1] + d[1] * j) for j in range(1, far + 1)}
+    free = [s for s in range(64) if s not in b and s not in line and max(abs(s % 8 - k[0]), abs(s // 8 - k[1])) > 1]
+    b[rng.choice(free)] = "k"
+    # a few more men, none of them on the line
+    for _ in range(rng.randrange(0, 6)):
+        s_ = rng.choice(free)
+        if s_ in b:
+            continue
+        pc = rng.choice("NBRQPnbrqp")
+        if pc in "Pp" and s_ // 8 in (0, 7):
+            continue
+        b[s_] = pc
+    return fen_of(b, "w")
+
+
 TEMPLATES = [("endgame", template_endgame), ("promo-castle", template_promo_castle), ("many", template_many_queens), ("kxr", template_kxr), ("pin", template_pin), ("multipin", template_multipin), ("pawnwedge", template_pawnwedge), ("check", template_check), ("ep", template_ep),
-             ("castle960", template_castle), ("promo", template_promo)]
+             ("castle960", template_castle), ("promo", template_promo), ("longray", template_longray)]
 
 
 def template_positions(rng, n):
